@@ -126,6 +126,7 @@ type semValJob struct {
 	ID     string            `json:"id"`
 	Fmt    string            `json:"fmt"`
 	Schema string            `json:"schema"`
+	Path   string            `json:"path"` // openapi: load from this file instead (schemas referring to a sibling file)
 	Root   string            `json:"root"`
 	Docs   []json.RawMessage `json:"docs"`
 }
@@ -149,7 +150,14 @@ func semValidateOne(job semValJob) (res semValResult) {
 	switch job.Fmt {
 	case "openapi":
 		loader := openapi3.NewLoader()
-		doc, err := loader.LoadFromData([]byte(job.Schema))
+		var doc *openapi3.T
+		var err error
+		if job.Path != "" {
+			loader.IsExternalRefsAllowed = true
+			doc, err = loader.LoadFromFile(job.Path)
+		} else {
+			doc, err = loader.LoadFromData([]byte(job.Schema))
+		}
 		if err != nil {
 			res.SchemaErr = err.Error()
 			return res
